@@ -331,6 +331,34 @@ def run(world, rep, tier, only=None):
                "%d calls in the loop body; calls given the running total `%s`: %s" %
                (ncalls, tot, [(c.line, (T.call_names(c.ev["x"]) or ["?"])[0]) for c in bad]))
 
+    # ------------------------------------------------------------------ C09.q extent start fields move together
+    pc = paired_cursor_updates([f for f in prog.functions() if f.file in ("lib/ext2fs/extent.c", "lib/ext2fs/punch.c",
+                                                                          "lib/ext2fs/fallocate.c")],
+                               "ext2fs_extent", "e_lblk", "e_pblk",
+                               exempt={("lib/ext2fs/fallocate.c", "ext_falloc_helper", "newex")})
+    # (exempt: `newex` is an extent under construction - its physical start is assigned from the allocator)
+    rep.floor("C09.q compound updates of extent start fields in the library", len(pc), 10)
+    for (f, n, fld, ok) in pc:
+        same = sorted([m for m in f.events("S") if T.pp(m.ev["lhs"]) == T.pp(n.ev["lhs"])], key=lambda m: (m.line, m.bid, m.idx))
+        rep.ob("C09.q", site(f, "`%s` moves together with its twin#%d" % (T.pp(n.ev["lhs"])[:30], same.index(n))), ok,
+               "`%s` has the same update of the other start field in the same block" % n.text()[:40])
+
+    # ------------------------------------------------------------------ C09.r a lowered extent start is propagated to the index
+    # growing an extent at its front (or merging into the front of the next one) lowers e_lblk of what may be the first
+    # extent of its leaf: the parent index entries must follow (ext2fs_extent_fix_parents) before the edit reports success
+    sb_ = prog.fn("ext2fs_extent_set_bmap", "lib/ext2fs/extent.c")
+    lowered = [n for n in sb_.events("S") if T.last_field(n.ev["lhs"]) == ("ext2fs_extent", "e_lblk") and n.ev.get("o") in ("--", "-=")]
+    fixp = calls_to(sb_, "ext2fs_extent_fix_parents")
+    rep.floor("C09.r lowered extent starts in ext2fs_extent_set_bmap", min(len(lowered), len(fixp)), 2)
+    exr = absint.Explorer(sb_, prog)
+    for i, n in enumerate(sorted(lowered, key=lambda m: (m.line, m.idx))):
+        terms = exr.run([n], on_node=lambda node, env, flags, _f=fixp: flags | {"fixed"} if node in _f else flags)
+        bad = sorted({node.line for (node, env, fl, st) in terms if node.ev and node.ev["e"] == "R" and "fixed" not in fl and
+                      absint._z(exr.eval(node.ev.get("x"), env))})
+        rep.ob("C09.r", site(sb_, "index follows a lowered extent start#%d" % i), not bad,
+               "after `%s` every successful return has passed ext2fs_extent_fix_parents(): zero returns without it %s" %
+               (n.text()[:30], bad))
+
     # ------------------------------------------------------------------ C09.w offset width
     fns = [f for f in prog.functions() if f.file in DATA_PATH_FILES]
     hits, n_and = width.zx_masks(fns)
